@@ -376,6 +376,9 @@ def run(ctx):
     ctx.assumptions = ["callers do not mutate package internals from outside the package"]
     w = World(ctx)
     om = OriginModel(ctx.sources)
+    for f, d in w.unknown_decorators:
+        ctx.unk("C17.0", f"{f} is wrapped by the decorator @{d}", f"{w.rel_of(f)}:{w.model.funcs[f].node.lineno}",
+                "the effects of the wrapper are not modelled; obligations that involve this function are not decided")
     caches, counters, bad = classify(ctx, w, threads=False)
 
     # ---- C17.1 ---------------------------------------------------------------------------------------------
